@@ -16,6 +16,8 @@ import pinned
 def suite():
     return pinned.lost_tests(wt)
 
+head = run(['git','-C','/repo','rev-parse','HEAD']).stdout.strip()
+run(['git','checkout','--','.'], cwd=wt); run(['git','checkout','-q','--detach',head], cwd=wt)
 for i in sorted(os.listdir(out)):
     d = os.path.join(out, i)
     if not os.path.exists(os.path.join(d, "patch.diff")):
